@@ -10,6 +10,7 @@ import re as stdre
 from mc import lib, pmodel, refmass
 from checks import c01
 
+CASE_TIMEOUT_S = 300      # wall-clock horizon per state (states of this check bundle many sub-states; generous for loaded machines)
 PROPERTY = 'C04'
 RULE = ('(types) full product of peptides of length 1..L over {S,K,G,M} x {16 single ion types, 4 classes, all 16}; (pairs) '
         'all 120 pairs of ion types on 2 peptides; (options) deviation<=2 over charge lists, isotope lists, 8 loss '
